@@ -13,6 +13,8 @@ import (
 	"encoding/json"
 	"errors"
 	"fmt"
+	"os"
+	"runtime/debug"
 	"sort"
 	"strings"
 
@@ -493,6 +495,9 @@ func Try(fn func()) (panicked string) {
 				panic(r)
 			}
 			panicked = fmt.Sprint(r)
+			if os.Getenv("VERIF_STACK") != "" { // debugging aid: where did it panic
+				panicked += "\n" + string(debug.Stack())
+			}
 		}
 	}()
 	fn()
